@@ -84,7 +84,7 @@ func (w *c02World) evalAgg(st *c02Streams, a *c02Agg, mut string, honest bool) {
 	}
 	for vi := range w.vers {
 		for _, cache := range []bool{false, true} {
-			if !w.wantCall(mut, honest, vi, cache) {
+			if !w.wantCall(mut, honest, vi, cache) || (w.repeat && (vi > 0 || cache)) {
 				continue
 			}
 			au := w.auth(vi, cache, false)
@@ -150,7 +150,7 @@ func (w *c02World) evalAgg(st *c02Streams, a *c02Agg, mut string, honest bool) {
 			w.v.Case(st.agg, fmt.Sprintf("(%s,%s,%s,%s,(%d,%d))", w.cfgTerm(false), w.storeTm, a.term, c02Obs(o), hd, hv), meta)
 
 			// BatchVerify directly on the crypto base with the same batch (cache off only)
-			if !cache && a.sig.obj != nil {
+			if !cache && !w.repeat && a.sig.obj != nil {
 				batch := map[hotstuff.ID][]byte{}
 				var bt []string
 				for _, k := range c02SortedKeys(a.qcs) {
@@ -169,7 +169,7 @@ func (w *c02World) evalAgg(st *c02Streams, a *c02Agg, mut string, honest bool) {
 			}
 
 			// VerifyAnyQC on proposals carrying this AggregateQC (aggregate QCs enabled / disabled)
-			if vi == 0 && !cache && a.sig.obj != nil {
+			if vi == 0 && !cache && !w.repeat && a.sig.obj != nil {
 				var bqcs []*c02QC
 				if hq != nil {
 					bqcs = append(bqcs, hq)
@@ -306,6 +306,53 @@ func c02AggStream(w *c02World, st *c02Streams) {
 		w.evalAgg(st, w.mkAgg(c02QCMap(Q, qcOf), w.render(c02Spec{bits: Q, useBits: true}), v), "bls-identity-point", false)
 	} else {
 		w.evalAgg(st, w.mkAgg(c02QCMap(Q, qcOf), w.render(c02Spec{other: true, parts: baseParts(Q)}), v), "other-scheme-type", false)
+	}
+
+	// relabelled twin of the highest valid QC: same view, hash and signature bytes, other claimed signers
+	// (BLS: another bitfield with the same point), attested by one validly signing replica; with and
+	// without a lower valid QC among the others.  QuorumCert.Equals does not look at the claimed signers,
+	// and Go's map iteration order varies, so every aggregate is verified 12 times (fresh map each time).
+	if n >= 2 {
+		var twinSig c02Sig
+		if w.scheme == crypto.NameBLS12 {
+			bits := c02Range(2, q+1)
+			if q == n {
+				bits = append(c02Range(2, q), uint64(n+1))
+			}
+			twinSig = w.render(c02Spec{parts: w.genuine(Q, w.mBlock("B5")), bits: bits, useBits: true})
+		} else {
+			ps := w.genuine(Q, w.mBlock("B5"))
+			for i := range ps {
+				ps[i].label = Q[(i+1)%q] // every signature carries its neighbour's id
+			}
+			twinSig = w.render(c02Spec{parts: ps})
+		}
+		twin := w.mkQC(twinSig, 5, "B5")
+		for _, withLower := range []bool{true, false} {
+			if withLower && n < 3 {
+				continue
+			}
+			for _, twinAt := range []uint64{1, uint64(n)} {
+				of := func(i uint64) *c02QC {
+					switch {
+					case i == twinAt:
+						return twin
+					case withLower && i == 2:
+						return q1
+					}
+					return q5
+				}
+				name := "relabelled-twin-of-highest"
+				if withLower {
+					name += "-with-lower-valid"
+				}
+				for rep := 0; rep < 12; rep++ {
+					w.repeat = rep > 0
+					w.evalAgg(st, build(N, v, of), name, true)
+				}
+				w.repeat = false
+			}
+		}
 	}
 
 	// seeded random stream: random signer set, random QC assignment, one random edit
